@@ -450,7 +450,10 @@ pub fn build(
             regions
                 .iter()
                 .flat_map(|r| r.type_ref.alignment(&semantic.type_registry)),
-        );
+        )
+        .with_context(|| {
+            format!("the alignments of the fields of type `{resolvee_path}` have no common multiple that fits")
+        })?;
 
         // Ensure that the alignment is at least the minimum required alignment.
         if required_alignment > alignment {
